@@ -755,6 +755,9 @@ func (e *engineA) memberAction() {
 			ids = append(ids, id)
 		}
 		sort.Slice(ids, func(i, j int) bool { return ids[i] < ids[j] })
+		if len(ids) == 0 {
+			return
+		}
 		id := ids[e.rng.Intn(len(ids))]
 		act := []raft.Action{raft.Demote, raft.Remove, raft.Promote}[e.rng.Intn(3)]
 		if conf2.SetAction(id, act) == nil {
